@@ -120,6 +120,13 @@ Definition esp_values (H : list (list (list F))) (P : list (list F)) (points : l
 Definition esp_undefined (points : list pt3) (ncoords : list pt3) (thr : F) : list bool :=
   map (fun p => existsb (fun n => feqb K (dist p n) 0 && negb (masked thr p n)) ncoords) points.
 
+(* shape of an integral array: n x n entries, each a vector over np points.  Not used by the model;
+   it is the hypothesis of the transform theorem (Proofs/EspP.esp_transform_is_backtransformed) and is
+   reported by the runner for the array of every case it evaluates. *)
+Definition squareb (n np : nat) (V : list (list (list F))) : bool :=
+  Nat.eqb (length V) n &&
+  forallb (fun row => Nat.eqb (length row) n && forallb (fun v => Nat.eqb (length v) np) row) V.
+
 (* the function, given the untransformed integrals V and the number of contractions nf *)
 Definition esp_with (V : list (list (list F))) (nf : nat) (P : list (list F)) (points : list pt3)
            (ncoords : list pt3) (ncharges : list F) (T : option (list (list F))) (thr : F)
